@@ -34,7 +34,7 @@ struct Job {
 }
 
 /// One history. Returns Err(message) on a mismatch at a quiet point.
-fn history(rng: &mut Rng, initial: usize, max: usize, with_panics: bool, log: &mut Vec<String>) -> Result<(usize, usize, usize), String> {
+fn history(rng: &mut Rng, initial: usize, max: usize, with_panics: bool, abort: Arc<AtomicBool>, log: &mut Vec<String>) -> Result<(usize, usize, usize), String> {
     let mut pool = Pool::new(initial, max);
     let in_service = Arc::new(AtomicUsize::new(0));
     let mut outstanding: Vec<Job> = Vec::new();
@@ -71,12 +71,13 @@ fn history(rng: &mut Rng, initial: usize, max: usize, with_panics: bool, log: &m
                 last_was_finish = true;
             } else {
                 let release = Arc::new(AtomicBool::new(false));
-                let (r2, s2) = (release.clone(), in_service.clone());
+                let (r2, s2, a2) = (release.clone(), in_service.clone(), abort.clone());
                 let id = next_id;
                 next_id += 1;
                 pool.execute(move || {
                     s2.fetch_add(1, Ordering::SeqCst);
-                    while !r2.load(Ordering::Relaxed) {
+                    // `abort`: the history was given up by its watchdog; its jobs must not keep spinning
+                    while !r2.load(Ordering::Relaxed) && !a2.load(Ordering::Relaxed) {
                         std::hint::spin_loop();
                         std::thread::yield_now();
                     }
@@ -244,15 +245,20 @@ pub fn run(ctx: &Ctx) {
             let mut hr = Rng::lane(rng.next(), 1);
             let hlog = Arc::new(std::sync::Mutex::new(Vec::<String>::new()));
             let hlog2 = hlog.clone();
+            let abort = Arc::new(AtomicBool::new(false));
+            let abort2 = abort.clone();
             let _ = std::thread::Builder::new().name("c14-history".into()).spawn(move || {
                 let mut l = Vec::new();
-                let r = history(&mut hr, initial, max, with_panics, &mut l);
+                let r = history(&mut hr, initial, max, with_panics, abort2, &mut l);
                 *hlog2.lock().unwrap() = l;
                 let _ = tx.send(r);
             });
             let outcome = match rx.recv_timeout(Duration::from_secs(90)) {
                 Ok(r) => r,
-                Err(_) => Err("the history did not finish within 90 s: a submission (ThreadPool::execute, i.e. the acceptor) or the pool's drop is blocked".to_string()),
+                Err(_) => {
+                    abort.store(true, Ordering::SeqCst);
+                    Err("the history did not finish within 90 s: a submission (ThreadPool::execute, i.e. the acceptor) or the pool's drop is blocked".to_string())
+                }
             };
             log = hlog.lock().unwrap().clone();
             match outcome {
